@@ -25,7 +25,8 @@ def cases(chk, env):
             # when-modes on one step
             for i in range(n):
                 for w in ("A", "N"):
-                    for exits in rng.sample(list(itertools.product([0, 1], repeat=n)), 1 if tier == "quick" else 3):
+                    pop = list(itertools.product([0, 1], repeat=n))
+                    for exits in rng.sample(pop, min(len(pop), 1 if tier == "quick" else 3)):
                         whens = ["D"] * n
                         whens[i] = w
                         out.append(S.explicit_spec(n, es, exits, whens, rng.choice([1, 2]), durs, rng.randrange(1, 1 << 30), "when%d" % n))
@@ -39,11 +40,11 @@ def cases(chk, env):
     out.append(S.mkspec([S.step("a", outs=["x.txt"], deps=[("file", "x.txt")])], label="cycle:self-file"))
     out.append(S.mkspec([S.step("a", outs=["d0/x.csv"], deps=[("glob", "d0/*.csv")]), S.step("b")], files={"d0/x.csv": "old\n"}, label="cycle:self-glob-present"))
     # implicit edges
-    for k in range(30 if tier == "quick" else 400):
+    for k in range(50 if tier == "quick" else 400):
         out.append(S.random_graph_spec(rng, label="random"))
     # a second run after touching / editing inputs: up-to-date steps count as finished dependencies,
     # recorded glob items give edges
-    for k in range(15 if tier == "quick" else 150):
+    for k in range(25 if tier == "quick" else 150):
         out.append(S.two_run_spec(rng, label="tworun"))
     return out
 
@@ -65,7 +66,7 @@ def run(chk, replay=None):
         S.table_obligations(chk, env)
         chk.proof()
         S.probe_p13(env)
-        specs = [replay["input"]] if replay else cases(chk, env)
+        specs = ([replay["input"]] if "input" in replay else []) if replay else cases(chk, env)
         stats, rrs, infos, specs = S.drive(chk, env, "C10", specs, nontrivial)
         chk.cov["distribution"] = stats
         chk.cov["p13_repaired_in_tree"] = env.p13_fixed
